@@ -580,6 +580,83 @@ def mapping_api_workload(res, rng):
         ld.close()
 
 
+def other_kernels_workload(res, rng):
+    """the same Dict operations on a kernel that lacks
+    BPF_MAP_LOOKUP_AND_DELETE_ELEM for hash maps (before Linux 5.14: the
+    command fails with EINVAL / ENOTSUPP), and - if the library offers them
+    (Dict(..., percpu=True), as the project's own test declares one) - on
+    per-CPU Dicts, whose values the kernel rounds up to 8 bytes per CPU"""
+    from ebpfcat.ebpf import Member, Structure
+    from ebpfcat.hashmap import Dict
+    for variant in ("old-kernel", "old-kernel", "percpu", "percpu-lru"):
+        Key = type("Key", (Structure,), {"no": Member("I"),
+                                         "tag": Member("B")})
+        vfm = rng.choice([["Q", "I", "B"], ["Q", "Q"], ["I", "B"],
+                          ["Q", "H", "B"]])
+        Value = type("Value", (Structure,),
+                     {f"v{i}": Member(f) for i, f in enumerate(vfm)})
+        kw = {}
+        if variant.startswith("percpu"):
+            kw["percpu"] = True
+            if variant == "percpu-lru":
+                kw["lru"] = True
+        try:
+            d_ = Dict(key=Key, value=Value, size=8, **kw)
+        except TypeError:
+            res.count("per_cpu_dicts_not_offered_by_the_library")
+            continue
+        with kern.session() as sess:
+            ns = {"license": "GPL", "d": d_}
+
+            def dprogram(self):
+                self.r0 = 2
+                self.exit()
+            ns["program"] = dprogram
+            try:
+                e = type("VfOther", (XDP,), ns)()
+                ld = prog.Loaded(e, sess)
+            except Exception:
+                res.count("other_kernels_workloads_not_built")
+                continue
+            with sysmon.Monitor(sess) as mon:
+                if variant == "old-kernel":
+                    mon.deny = {21: rng.choice([22, 524])}
+                try:
+                    ld.load()
+                except OSError:
+                    res.count("other_kernels_load_failed")
+                else:
+                    def key(n):
+                        k = Key()
+                        k.no, k.tag = n, n & 0xff
+                        return k
+
+                    def val(n):
+                        v = Value()
+                        for i in range(len(vfm)):
+                            setattr(v, f"v{i}", (n + i) & 0xff)
+                        return v
+                    steps = [lambda n=n: e.d.__setitem__(key(n), val(n))
+                             for n in (1, 2, 3)]
+                    steps += [lambda: e.d[key(1)], lambda: e.d.pop(key(1)),
+                              lambda: e.d.pop(key(2), None),
+                              lambda: e.d.pop(key(77), None),
+                              lambda: e.d.pop(key(3)),
+                              lambda: list(e.d.items())]
+                    for st in steps:
+                        res.count(f"other_kernels_steps[{variant}]")
+                        try:
+                            st()
+                        except sysmon.Refused:
+                            pass
+                        except Exception:
+                            res.count("other_kernels_steps_that_raised")
+            res.count("calls_denied_as_on_an_old_kernel",
+                      getattr(mon, "denied", 0))
+            absorb(mon, res, "other-kernels")
+            ld.close()
+
+
 def run_shard(params):
     res = Result()
     if params.get("valgrind"):
@@ -637,6 +714,7 @@ def run_shard(params):
     guarded(bytes_member_workload, "byte-string-members")
     guarded(format_lookup_workload, "format-lookup")
     guarded(mapping_api_workload, "mapping-api")
+    guarded(other_kernels_workload, "other-kernels")
     for _ in range(3):
         guarded(closed_program_workload, "closed-program")
         guarded(unsupported_use_workload, "unsupported-use")
